@@ -19,7 +19,7 @@ ASSUMPTIONS = [
     "numpy storage replaced by dtype=object arrays",
 ]
 BOUNDS = {
-    "quick": "3 variables x,y,z (domains 2,3,2), every permutation of the variable list, every full assignment, every non-empty partial assignment, 1- and 2-step slicing; 8 relation kinds",
+    "quick": "3 variables x,y,z (domains 2,3,2), every permutation of the variable list, every full assignment, every non-empty partial assignment, 1- and 2-step slicing; every relation kind of KINDS",
     "thorough": "quick + 4 variables for matrix / expression / python-function relations, 3-step slicing",
 }
 OUTSIDE = "more than 4 variables, str-valued domains, expressions with return statements or source files, float coefficients"
@@ -27,7 +27,7 @@ CAP_S = {"quick": 900, "thorough": 7200}
 LIM = 2 ** 20
 DOMS = {"x": [0, 1], "y": [0, 1, 2], "z": [0, 1], "w": [0, 1]}
 
-KINDS = ["matrix", "expr_str", "expr_direct", "expr_direct_kw", "pyfunc", "pyfunc_kw", "pyfunc_partial", "unary", "boolean",
+KINDS = ["matrix", "expr_str", "expr_direct", "expr_direct_kw", "pyfunc", "pyfunc_kw", "pyfunc_named_kw", "pyfunc_partial", "unary", "boolean",
          "zeroary", "neutral", "cond_neutral", "cond_zero"]
 
 
@@ -115,6 +115,14 @@ def build(eng, kind, names):
             env = {"ks": ks, "k0": k0}
             exec(src, env)
             rel = R.NAryFunctionRelation(env["f"], vs, name="p")
+            return rel, ref, order
+        if kind == "pyfunc_named_kw":
+            # a function with named arguments (in lexical order), used by keyword: the order in which the variables are
+            # listed is irrelevant
+            src = "def f(%s):\n    return %s + k0" % (", ".join(names), " + ".join("ks['%s']*%s" % (n, n) for n in names))
+            env = {"ks": ks, "k0": k0}
+            exec(src, env)
+            rel = R.NAryFunctionRelation(env["f"], vs, name="p", f_kwargs=True)
             return rel, ref, order
         if kind == "pyfunc_kw":
             def g(**kw):
